@@ -90,6 +90,7 @@ def _spos(rng, face):
 
 def gen_cases(ctx):
     rng = random.Random(ctx.seed)
+    ctx.exhaustive = False      # the configuration space is swept completely in the thorough tier, source positions are seeded
     allc = configs()
     # one source position per (face, kind, pol): the reference run is shared by the three thickness classes
     pos = {}
